@@ -17,6 +17,13 @@ CLAIMED["C02"] = {
     "technique": "contract-based deductive verification: class invariant + method postconditions on the real ReceptorEstimator, callee contracts as stubs, z3 (rational-function identity normal form / SMT) and cvc5",
 }
 
+CLAIMED["C16"] = {
+    "text": "Postconditions on the real barycentric/spherical functions: the transformer is executed in exact arithmetic (square roots as algebraic constants) and all C(n,2) squared edge lengths equal 1 for n=2..8 quick / 2..12 thorough (the property's whole range); barycentric_to_cartesian is the affine map X@A, cartesian_to_barycentric inverts it and returns rows summing to L1, chromatic reduction is scale invariant; cartesian_to_spherical returns radius=||x||, polar angles in [0,pi], azimuth in [0,2pi] and spherical_to_cartesian inverts it for every real point, the measure-zero cases (zero tails, axes, origin, negative last coordinate) being If-cases of one symbolic run rather than samples.",
+    "design_ref": "DESIGN.md section 6 C16",
+    "note": A_COMMON + " cos/sin/arccos are uninterpreted with the axioms listed in DESIGN.md A4 (arccos range, cos(arccos t)=t, sin(arccos t)=sqrt(1-t^2)>=0, reflection 2pi-a, distribution over If); sqrt is uninterpreted with s>=0, s^2=t; np.linalg.inv is exact Gauss-Jordan with solver-decided pivots; sklearn normalize(l1) is modelled. Spherical dims 2-3 quick, 2-5 thorough (lemma-guided); barycentric dims 2-4 quick, up to 8 thorough.",
+    "technique": "contract-based deductive verification: postconditions + ghost lemmas on the real functions, exact polynomial/radical normal form, z3 NRA with instantiated trig axioms",
+}
+
 NOT_APPLICABLE = {}
 
 FIX_COMMITS = ["b2d156a (np.trapz -> trapezoid)"]
